@@ -193,13 +193,51 @@ def pivot_cells(F):
 
 
 def glob_entry(F, path, depth, pivot):
-    for adt, fields in (("walk::glob::GlobEntry", ["entry", "pivot", "matched"]), ("walk::TreeEntry", ["entry"])):
-        have = [f["name"] for f in F.adt(adt)["variants"][0]["fields"]]
-        if have != fields:
-            from ..facts import AnchorMissing
-            raise AnchorMissing("%s with the fields %s (has %s)" % (adt, fields, have))
+    """The GlobEntry the glob walker itself yields for the file `path` at traversal depth `depth` of a walk with the
+    given pivot: the walker's closure is evaluated (THIR) on that entry with a program that has no component programs
+    and whose complete program matches, so the value does not depend on which fields GlobEntry stores."""
+    from ..teval import Closure
+    from ..facts import AnchorMissing
+    from . import c20, c13
+    from . import walkfam as W
+    have = [f["name"] for f in F.adt("walk::TreeEntry")["variants"][0]["fields"]]
+    if have != ["entry"]:
+        raise AnchorMissing("walk::TreeEntry with the field `entry` (has %s)" % have)
     dirent = Adt("walkdir-model", "DirEntry", {"path": path, "depth": depth})
-    return Adt("walk::glob::GlobEntry", "GlobEntry", {"entry": tree_entry(dirent), "pivot": pivot, "matched": Sym("matched")})
+    cl = c20.walker_closure(F)
+    uv = c20.upvars(F, cl)
+    stubs = PM.stubs()
+    stubs.update({
+        "walkdir::DirEntry::path": lambda I, a, fn, e: strip(a[0]).fields["path"],
+        "walkdir::DirEntry::depth": lambda I, a, fn, e: strip(a[0]).fields["depth"],
+        "<CandidatePath as std::convert::From>::from": lambda I, a, fn, e: strip(a[0]),
+        "<CandidatePath as std::convert::AsRef>::as_ref": lambda I, a, fn, e: strip(a[0]),
+        "std::path::Component::<'a>::as_os_str": lambda I, a, fn, e: Sym("name"),
+        "regex::Regex::is_match": lambda I, a, fn, e: True,
+        "regex::Regex::captures": lambda I, a, fn, e: some(Sym("captures")),
+        "<capture::MatchedText as std::convert::From>::from": lambda I, a, fn, e: Sym("matched"),
+        "capture::MatchedText::into_owned": lambda I, a, fn, e: strip(a[0]),
+    })
+    I = Interp(F, stubs)
+
+    def run():
+        env = {}
+        program = Adt("walk::glob::WalkProgram", "WalkProgram", {"complete": Sym("complete"), "components": RList([])})
+        walker = Adt("walk::glob::GlobWalker", "GlobWalker", {"anchor": Sym("anchor"), "program": program})
+        for name, var in uv.items():
+            env[var] = Cell(walker if name == "self" else (pivot if name == "pivot" else Sym(name)))
+        sep = W.separation("filtrate", ok(tree_entry(dirent)))
+        return I.call_closure(Closure(cl.key, env), [c13.cancellation(), sep])
+    cases = I.explore(run)
+    if len(cases) == 1:
+        state, payload = W.classify(cases[0].result)
+        p = strip(payload)
+        if state == "filtrate" and isinstance(p, Adt) and p.variant == "Ok":
+            g = strip(p.fields["0"])
+            if isinstance(g, Adt) and g.path == "walk::glob::GlobEntry":
+                return g
+    raise AnchorMissing("a GlobEntry yielded by the glob walker's closure for %s at traversal depth %d (got %r)" % (
+        PM.show(path), depth, [c.result for c in cases][:1]))
 
 
 def tree_entry(dirent):
